@@ -1,9 +1,11 @@
 package go_zero
 
 import (
+	"context"
 	"errors"
 	"net/http"
 	"net/url"
+	"time"
 
 	rt "github.com/alibaba/sentinel-golang/pkg/adapters/go-zero/zzverif/verifrt"
 )
@@ -84,7 +86,22 @@ func (w *verifWriter) Header() http.Header         { return http.Header{} }
 func (w *verifWriter) Write(b []byte) (int, error) { w.wrote = true; return len(b), nil }
 func (w *verifWriter) WriteHeader(code int)        { w.status = code }
 
+// verifCtx: the request's context; symbolically already done (the client went away, or its deadline passed)
+type verifCtx struct{ done bool }
+
+func (c *verifCtx) Deadline() (time.Time, bool) { return time.Time{}, false }
+func (c *verifCtx) Done() <-chan struct{}       { return nil }
+func (c *verifCtx) Err() error {
+	if c.done {
+		return context.Canceled
+	}
+	return nil
+}
+func (c *verifCtx) Value(key interface{}) interface{} { return nil }
+
 func verifRequest() *http.Request {
+	ctx := &verifCtx{done: rt.Bool("requestContextDone")}
+	rt.RedirectCall("(*net/http.Request).Context", func(r *http.Request) context.Context { return ctx })
 	return &http.Request{Method: "GET", URL: &url.URL{Path: "/p"}, Header: http.Header{}}
 }
 
